@@ -36,7 +36,7 @@ FilterClauses(e) ==
      \* matcher finding).  Not a verdict of a property: a disagreement without a violation makes the run inconclusive
      \cup (IF "model" \in DOMAIN e /\ calls # [k \in DOMAIN e.model.alg |-> e.model.alg[k]] THEN {"MODEL.filterWalkOutputDiffers"} ELSE {})
 
-FollowJudge(e) ==
+FollowJudge0(e) ==
   LET T == [p \in PathsOf(e.tree) |-> At(e.tree, p)]
       lit == SelectSeq(e.reqs, LAMBDA q : ~q.wild)
       reqs == [k \in DOMAIN lit |-> lit[k].p]
@@ -57,6 +57,15 @@ FollowJudge(e) ==
           \* against the directory its literal prefix resolves to) resolves in the transferred tree as in the source
           \cup (IF e.synced THEN Pfx("C18", ExpansionClauses(T, [p \in PathsOf(e.dst) |-> At(e.dst, p)], e.exps, reqs)) ELSE {})
           \cup (IF e.syncFailed THEN {"C18.transferWithFollowPathsFailed"} ELSE {})
+
+\* conformance of the algorithm-layer model ResolverMC (cases enumerated by TLC): the real FollowLinks returns exactly the list the
+\* ALGORITHM model's run ends in - also where both depart from the property layer (the recorded memoisation finding).  Not a
+\* verdict of a property: a disagreement without a violation makes the run inconclusive
+FollowJudge(e) ==
+  FollowJudge0(e)
+  \cup (IF "model" \in DOMAIN e /\ ~e.hang /\ ~e.err
+            /\ (e.isNil # e.model.isNil \/ [k \in DOMAIN e.result |-> e.result[k]] # [k \in DOMAIN e.model.result |-> e.model.result[k]])
+        THEN {"MODEL.resolverResultDiffers"} ELSE {})
 
 Judge(e) ==
   IF e.ev = "Tar" THEN Pfx("C17", TarClauses(e) \cup (IF e.writeErr THEN {} ELSE ExtractClauses(e)))
